@@ -18,10 +18,10 @@ func init() {
 	register(&Rule{ID: "E-TODECIMAL-TABLE", Props: []string{"C05", "C14"}, Floor: 14,
 		Doc: "toDecimal converts each numeric kind with the value-preserving constructor of that kind and nothing else: Decimal unchanged, json.Number through decimal128.Parse of its full text, floats through FromFloat32/64, signed integers through FromInt32/64, unsigned through FromUint32/64",
 		Run: ruleEToDecimalTable})
-	register(&Rule{ID: "E-FLOAT-ORIGIN", Props: []string{"C05", "C14", "C02", "C13"}, Floor: 10,
+	register(&Rule{ID: "E-FLOAT-ORIGIN", Props: []string{"C05", "C14", "C02", "C13", "C20"}, Floor: 10,
 		Doc: "no numeric value is routed through binary floating point or machine integers unless it arrived that way: the evaluator never calls json.Number.Float64/Int64, strconv.Parse*/Atoi, Decimal.Float*, math/big; integer-to-float conversions do not occur; float-to-int conversions occur only in toInt; decimal128.FromFloat* is applied only to float-kind type-switch bindings; Decimal.Int64 is used only by the integer-argument coercion",
 		Run: ruleEFloatOrigin})
-	register(&Rule{ID: "E-INFNAN", Props: []string{"C05", "C14"}, Floor: 12,
+	register(&Rule{ID: "E-INFNAN", Props: []string{"C05", "C14", "C18"}, Floor: 12,
 		Doc: "every result value of the evaluator that is produced by decimal Add/Sub/Mul/Quo/QuoRem/Pow or by float + - * /, math.Mod or math.Floor of such is returned only under the false edges of IsInf and IsNaN tests on that value (whose true edges return ErrInfinity / ErrNotANumber)",
 		Run: ruleEInfNaN})
 	register(&Rule{ID: "E-ROUNDING-AGREE", Props: []string{"C14"}, Floor: 3,
@@ -30,7 +30,7 @@ func init() {
 	register(&Rule{ID: "E-OPCHAIN", Props: []string{"C05", "C10", "C01"}, Floor: 12,
 		Doc: "each arithmetic and comparison helper uses the decimal128 primitive and the float operator the specification names for it, with the operands in source order (add: Add/+; subtract: Sub/-; multiply: Mul/*; divide: Quo//; integerDivide: QuoRem quotient; modulo: QuoRem remainder/math.Mod; less..greaterOrEqual: Cmp().Less()..)",
 		Run: ruleEOpChain})
-	register(&Rule{ID: "E-DECIMAL-EQ", Props: []string{"C05", "C20", "C14", "C03"}, Floor: 1,
+	register(&Rule{ID: "E-DECIMAL-EQ", Props: []string{"C05", "C20", "C14", "C03", "C01"}, Floor: 1,
 		Doc: "decimal128.Decimal values are never compared with == or != (struct equality distinguishes 1.0 from 1 and 0.30 from 0.3) nor used as map keys; equality goes through Equal/Cmp/Compare",
 		Run: ruleEDecimalEq})
 	register(&Rule{ID: "E-CONV-LOSSLESS", Props: []string{"C14", "C05", "C03"}, Floor: 10,
@@ -682,6 +682,14 @@ func ruleEDecimalEq(p *Program, r *Reporter) {
 			for _, in := range b.Instrs {
 				switch x := in.(type) {
 				case *ssa.BinOp:
+					if (x.Op == token.EQL || x.Op == token.NEQ) && (typeShort(x.X.Type()) == "json.Number" || typeShort(x.Y.Type()) == "json.Number") {
+						if _, cx := x.X.(*ssa.Const); !cx {
+							if _, cy := x.Y.(*ssa.Const); !cy {
+								n++
+								r.Bad(instrPos(x), fmt.Sprintf("%s json.Number %s", p.FuncName(fn), x.Op), "two json.Number values compared with "+x.Op.String()+": that compares their spelling, so 1.0 and 1 (or 1e2 and 100) are different numbers")
+							}
+						}
+					}
 					if (x.Op == token.EQL || x.Op == token.NEQ) && (isDecimal(x.X.Type()) || isDecimal(x.Y.Type())) {
 						n++
 						r.Bad(instrPos(x), fmt.Sprintf("%s decimal %s", p.FuncName(fn), x.Op), "decimal128.Decimal compared with "+x.Op.String()+": struct equality is representation equality, 1.0 and 1 differ")
